@@ -22,6 +22,8 @@ does not spell them out: an identity is the wildcard or reads `prefix:value`; ev
 an OCI document has at least one scope. Mandatory attributes must have a non-empty value.
 -/
 import NotationModel.Model.C09
+import NotationModel.Generated.SrcLevels
+import NotationModel.Generated.SrcC09
 set_option linter.unusedSimpArgs false
 set_option linter.unusedVariables false
 
@@ -193,45 +195,28 @@ theorem applyOverrides_ok : ∀ (ov : List KV) (e : Enf),
 
 theorem setKey_mem_of_ne (k v : String) (p : String × String) (hk : p.1 ≠ k) :
     ∀ e : Enf, p ∈ e → p ∈ setKey k v e := by
-  intro e
-  induction e with
-  | nil => intro h; cases h
-  | cons h t ih =>
-    intro hp
-    obtain ⟨k', v'⟩ := h
-    simp only [setKey]
-    by_cases hkk : k' = k
-    · simp only [hkk, beq_self_eq_true, if_true]
-      rcases List.mem_cons.1 hp with hp | hp
-      · subst hp; exact absurd hkk hk
-      · exact List.mem_cons_of_mem _ hp
-    · have : (k' == k) = false := by simp [hkk]
-      simp only [this, Bool.false_eq_true, if_false]
-      rcases List.mem_cons.1 hp with hp | hp
-      · subst hp; exact List.mem_cons_self
-      · exact List.mem_cons_of_mem _ (ih hp)
+  intro e hp
+  unfold setKey
+  split
+  · refine List.mem_map.2 ⟨p, hp, ?_⟩
+    have : (p.1 == k) = false := by simpa using hk
+    simp [this]
+  · exact List.mem_append_left _ hp
 
 theorem setKey_mem (k v : String) (p : String × String) :
     ∀ e : Enf, p ∈ setKey k v e → p ∈ e ∨ p = (k, v) := by
-  intro e
-  induction e with
-  | nil => intro h; simp [setKey] at h; exact Or.inr h
-  | cons h t ih =>
-    intro hp
-    obtain ⟨k', v'⟩ := h
-    simp only [setKey] at hp
-    by_cases hkk : k' = k
-    · simp only [hkk, beq_self_eq_true, if_true] at hp
-      rcases List.mem_cons.1 hp with hp | hp
-      · exact Or.inr hp
-      · exact Or.inl (List.mem_cons_of_mem _ hp)
-    · have : (k' == k) = false := by simp [hkk]
-      simp only [this, Bool.false_eq_true, if_false] at hp
-      rcases List.mem_cons.1 hp with hp | hp
-      · subst hp; exact Or.inl List.mem_cons_self
-      · rcases ih hp with h | h
-        · exact Or.inl (List.mem_cons_of_mem _ h)
-        · exact Or.inr h
+  intro e hp
+  unfold setKey at hp
+  split at hp
+  · obtain ⟨q, hq, rfl⟩ := List.mem_map.1 hp
+    by_cases hqk : (q.1 == k) = true
+    · right; simp [hqk]
+    · left
+      have : (q.1 == k) = false := by simpa using hqk
+      simpa [this] using hq
+  · rcases List.mem_append.1 hp with h | h
+    · exact Or.inl h
+    · right; simpa using h
 
 theorem setKey_integrity (k v : String) (e : Enf) (hk : k ≠ Facts.typeIntegrity) (h : EnfIntegrity e) :
     EnfIntegrity (setKey k v e) := by
@@ -1523,5 +1508,761 @@ example : Holds sampleInput { (run sampleInput) with
 /-- … and of one that accepts a document with an unsupported version -/
 example : Holds { sampleInput with doc := { sampleDoc with version := "2.0" } }
     (run sampleInput) = false := by decide
+
+
+/-! ## tie to the translated source
+
+`extract/go2lean.go` translates the Go functions below into Lean on every run
+(`Generated/SrcLevels.lean`: GetVerificationLevel with the level tables; `Generated/SrcC09.lean`:
+verifier/trustpolicy; `SrcC09b`: internal/file; `SrcC09c`: internal/pkix). The theorems
+`source_<GoFunction>_refines_model` state, for ALL inputs, that the translated function decides as
+the hand-written model does. Oracles (library code that is not translated): Go's regexp
+(`Src/TypesC09.lean`: the derivative matcher on the pinned expression trees),
+`pkix.ParseDistinguishedName` / go-ldap (a parameter `pd`). Functions that call other translated
+functions whose tie is not proved here take that callee's verdict as a hypothesis
+(`validateTrustedIdentities` in `validatePolicyCore`, `validateRegistryScopes` in
+`OCIDocument.Validate`); translated but not yet tied: validateTrustedIdentities,
+validateOverlappingDNs, validateRegistryScopes. -/
+
+set_option maxRecDepth 100000
+
+namespace Tie
+open NotationModel.Src NotationModel.Src.trustpolicy
+
+/-! #### GetVerificationLevel -/
+
+/-- the fact tables and the translated declarations say the same -/
+theorem levels_agree : Facts.levels = VerificationLevels.map (fun l => (l.Name, l.Enforcement)) := by decide
+theorem types_agree : Facts.validationTypes = ValidationTypes := by decide
+theorem actions_agree : Facts.validationActions = ValidationActions := by decide
+
+def toKV (p : String × String) : KV := ⟨p.1, p.2⟩
+
+/-- result shape: the level (if any) and whether an error is returned -/
+def shape (r : Option VerificationLevel × Option GoLite.Err) : Option (String × Enf) × Bool :=
+  (r.1.map (fun l => (l.Name, l.Enforcement)), r.2.isSome)
+
+def ofModel : Except String (String × Enf) → Option (String × Enf) × Bool
+  | .ok p => (some p, false)
+  | .error _ => (none, true)
+
+theorem foldl_lastMatch {α : Type} (p : α → Bool) : ∀ (L : List α) (acc : Option α),
+    L.foldl (fun acc l => if p l then some l else acc) acc =
+      (match (L.filter p).getLast? with | some x => some x | none => acc) := by
+  intro L
+  induction L with
+  | nil => intro acc; rfl
+  | cons h t ih =>
+    intro acc
+    simp only [List.foldl_cons, ih]
+    by_cases hp : p h = true
+    · simp only [hp, if_true, List.filter_cons_of_pos]
+      cases hl : (t.filter p).getLast? with
+      | none =>
+        have : t.filter p = [] := by simpa using hl
+        simp [this]
+      | some y =>
+        have hne : t.filter p ≠ [] := by intro e; simp [e] at hl
+        simp [List.getLast?_cons_of_ne_nil hne, hl]
+    · have hp' : p h = false := by simpa using hp
+      simp [hp', List.filter_cons]
+
+theorem baseLevel_src (lvl : String) :
+    baseLevel lvl = ((VerificationLevels.filter (fun l => l.Name == lvl)).getLast?).map (fun l => (l.Name, l.Enforcement)) := by
+  unfold baseLevel
+  rw [foldl_lastMatch (fun l : String × Enf => l.1 == lvl), levels_agree, List.filter_map, List.getLast?_map]
+  have : ((fun l : String × Enf => l.1 == lvl) ∘ fun l : VerificationLevel => (l.Name, l.Enforcement)) =
+      (fun l => l.Name == lvl) := rfl
+  rw [this]
+  cases (VerificationLevels.filter (fun l => l.Name == lvl)).getLast? <;> rfl
+
+theorem foldE_applyOverrides (l : List (String × String)) (t : Enf) :
+    (match GoLite.foldE (fun t kv => applyOverride (toKV kv) t) l t with
+      | .ok t' => Except.ok t'
+      | .error (_, e) => Except.error e) = applyOverrides (l.map toKV) t := by
+  induction l generalizing t with
+  | nil => simp [GoLite.foldE, applyOverrides]
+  | cons a l ih =>
+    simp only [GoLite.foldE, List.map_cons, applyOverrides]
+    cases h : applyOverride (toKV a) t with
+    | ok t' => simpa using ih t'
+    | error e => simp
+
+theorem find_getD_eq (L : List String) (k : String) (h : "" ∉ L) :
+    ((L.find? (· == k)).getD "" == "") = !L.contains k := by
+  have := find_getD L k h
+  cases hb : ((L.find? (· == k)).getD "" == "") with
+  | true => have := this.1 hb; simp [this]
+  | false =>
+    have : k ∈ L := by
+      cases hd : decide (k ∈ L) with
+      | true => exact of_decide_eq_true hd
+      | false => have h2 := this.2 (of_decide_eq_false hd); rw [hb] at h2; cases h2
+    simp [this]
+
+/-- the override step with the two searches read as membership tests -/
+theorem applyOverride_eq (kv : KV) (e : Enf) : applyOverride kv e =
+    (if !Facts.validationTypes.contains kv.key then .error "verification type is not supported"
+     else if !Facts.validationActions.contains kv.val then .error "verification action is not supported"
+     else if kv.key == Facts.typeIntegrity then .error "integrity verification can not be overridden"
+     else if kv.key != Facts.typeRevocation && kv.val == Facts.actionSkip then .error "verification can not be skipped"
+     else .ok (setKey kv.key kv.val e)) := by
+  unfold applyOverride
+  rw [find_getD_eq _ _ empty_not_type, find_getD_eq _ _ empty_not_action]
+
+/-- the loop state of the override loop, seen from the model: the enforcement map built so far -/
+abbrev absSt (t : Enf) : Option (Option VerificationLevel × Option GoLite.Err) × VerificationLevel :=
+  (none, { Name := Facts.customLevelName, Enforcement := t })
+abbrev stopSt (t : Enf) (_e : String) : Option (Option VerificationLevel × Option GoLite.Err) × VerificationLevel :=
+  (some (none, some (GoLite.errorf "")), { Name := Facts.customLevelName, Enforcement := t })
+
+theorem source_GetVerificationLevel_refines_model (sv : SignatureVerification) :
+    shape (GetVerificationLevel sv) = ofModel (effective sv.VerificationLevel (sv.Override.map toKV)) := by
+  unfold GetVerificationLevel
+  simp only [Id.run]
+  simp only [GoLite.forIn_lastMatch, GoLite.forIn_firstEq, pure_bind]
+  unfold effective
+  rw [baseLevel_src]
+  by_cases h0 : sv.VerificationLevel = ""
+  · simp [h0, shape, ofModel, GoLite.idPure]
+  · have hne : (sv.VerificationLevel == "") = false := by simpa using h0
+    simp only [hne, Bool.false_eq_true, if_false]
+    cases hb : (VerificationLevels.filter (fun l => l.Name == sv.VerificationLevel)).getLast? with
+    | none => simp [shape, ofModel, GoLite.idPure]
+    | some b =>
+      have hmem : b ∈ VerificationLevels.filter (fun l => l.Name == sv.VerificationLevel) := List.mem_of_getLast? hb
+      simp only [Option.isNone_some, Bool.false_eq_true, if_false, Option.map_some]
+      by_cases hov : sv.Override = []
+      · simp [hov, shape, ofModel, GoLite.idPure]
+      · have hlen : (GoLite.len sv.Override == 0) = false := by
+          cases h : sv.Override with
+          | nil => exact absurd h hov
+          | cons a l => simp [GoLite.len]; omega
+        have hemp : (sv.Override.map toKV).isEmpty = false := by simp [hov]
+        simp only [hlen, hemp, Bool.false_eq_true, if_false]
+        have hb4 : b = LevelStrict ∨ b = LevelPermissive ∨ b = LevelAudit ∨ b = LevelSkip := by
+          have := (List.mem_filter.1 hmem).1
+          simpa [VerificationLevels] using this
+        have hcopy : (forIn (GoLite.deref (some b)).Enforcement ({ Name := "custom", Enforcement := [] } : VerificationLevel)
+              (fun x __s => (pure (ForInStep.yield { Name := __s.Name, Enforcement := __s.Enforcement.set x.fst x.snd }) : Id _))) =
+            pure ({ Name := "custom", Enforcement := b.Enforcement } : VerificationLevel) := by
+          rcases hb4 with rfl | rfl | rfl | rfl <;> rfl
+        rw [hcopy]
+        simp only [pure_bind]
+        rw [GoLite.forIn_eq_foldE' _ (fun t kv => applyOverride (toKV kv) t) absSt stopSt ?h _ _ b.Enforcement ?hs]
+        case hs => rfl
+        case h =>
+          intro x t
+          have hT : ValidationTypes = Facts.validationTypes := types_agree.symm
+          have hA : ValidationActions = Facts.validationActions := actions_agree.symm
+          have hI : TypeIntegrity = Facts.typeIntegrity := by decide
+          have hR : TypeRevocation = Facts.typeRevocation := by decide
+          have hS : ActionSkip = Facts.actionSkip := by decide
+          rcases x with ⟨k, v⟩
+          simp only [hT, hA, hI, hR, hS, applyOverride_eq, setKey, GoLite.Map.set, toKV]
+          by_cases c1 : k ∈ Facts.validationTypes
+          · by_cases c2 : v ∈ Facts.validationActions
+            · simp [Facts.validationTypes] at c1
+              simp [Facts.validationActions] at c2
+              rcases c1 with rfl | rfl | rfl | rfl | rfl <;> rcases c2 with rfl | rfl | rfl <;>
+                simp [Facts.validationTypes, Facts.validationActions, Facts.typeIntegrity, Facts.typeRevocation,
+                  Facts.actionSkip, GoLite.errorf, absSt, stopSt] <;> (try rfl)
+            · have c2' := c2
+              simp [Facts.validationActions] at c2'
+              simp [Facts.validationTypes] at c1
+              rcases c1 with rfl | rfl | rfl | rfl | rfl <;>
+                simp [Facts.validationTypes, Facts.validationActions, Facts.typeIntegrity, Facts.typeRevocation,
+                  Facts.actionSkip, GoLite.errorf, absSt, stopSt, c2, c2'] <;> (try rfl)
+          · have c1' := c1
+            simp [Facts.validationTypes] at c1'
+            simp [Facts.validationTypes, Facts.validationActions, Facts.typeIntegrity, Facts.typeRevocation,
+                  Facts.actionSkip, GoLite.errorf, absSt, stopSt, c1, c1'] <;> (try rfl)
+        have hskip : (some b == some LevelSkip) = (b.Name == Facts.levelSkipName) := by
+          rcases hb4 with rfl | rfl | rfl | rfl <;> decide
+        rw [hskip, ← foldE_applyOverrides]
+        by_cases hs : (b.Name == Facts.levelSkipName) = true
+        · simp [hs, shape, ofModel, GoLite.idPure]
+        · simp only [hs, Bool.false_eq_true, if_false, pure_bind]
+          cases hf : GoLite.foldE (fun t kv => applyOverride (toKV kv) t) sv.Override b.Enforcement with
+          | ok t' => simp [shape, ofModel, GoLite.idPure, absSt]
+          | error p => obtain ⟨t', e⟩ := p; simp [shape, ofModel, GoLite.idPure, stopSt]
+
+
+
+/-! #### generic: a loop without mutable state that returns from its body -/
+
+/-- `for _, a := range l { if .. { return r } }`: the first element whose body returns decides -/
+theorem forIn_findReturn {α ρ : Type} (f : α → Option ρ)
+    (body : α → Option ρ × Unit → Id (ForInStep (Option ρ × Unit)))
+    (h : ∀ a s, body a s = pure (match f a with
+      | some r => ForInStep.done (some r, ())
+      | none => ForInStep.yield (none, ()))) (l : List α) :
+    forIn l (none, ()) body = pure (l.findSome? f, ()) := by
+  induction l with
+  | nil => rfl
+  | cons a l ih =>
+    rw [List.forIn_cons, h]
+    cases hf : f a with
+    | some r => simp [List.findSome?_cons, hf]
+    | none => simp [List.findSome?_cons, hf, ih]
+
+theorem findSome?_if_none {α ρ : Type} (p : α → Bool) (r : ρ) (l : List α) :
+    (l.findSome? (fun a => if p a then none else some r)) = if l.all p then none else some r := by
+  induction l with
+  | nil => rfl
+  | cons a l ih =>
+    cases hp : p a <;> simp [List.findSome?_cons, hp, ih]
+
+theorem findSome?_if_some {α ρ : Type} (p : α → Bool) (r : ρ) (l : List α) :
+    (l.findSome? (fun a => if p a then some r else none)) = if l.any p then some r else none := by
+  induction l with
+  | nil => rfl
+  | cons a l ih =>
+    cases hp : p a <;> simp [List.findSome?_cons, hp, ih]
+
+/-! #### strings and character lists -/
+
+theorem beq_ofList (s : String) (l : List Char) : (s == String.ofList l) = (s.toList == l) := by
+  by_cases h : s.toList = l
+  · have : s = String.ofList l := by rw [← h, String.ofList_toList]
+    simp [h, this]
+  · have : s ≠ String.ofList l := by intro e; apply h; rw [e, String.toList_ofList]
+    have a : (s == String.ofList l) = false := beq_false_of_ne this
+    have b : (s.toList == l) = false := beq_false_of_ne h
+    rw [a, b]
+
+theorem bne_ofList (s : String) (l : List Char) : (s != String.ofList l) = (s.toList != l) := by
+  simp only [bne, beq_ofList]
+
+theorem beq_empty (s : String) : (s == "") = s.toList.isEmpty := by
+  rw [← String.ofList_nil, beq_ofList]
+  cases s.toList <;> rfl
+
+theorem contains_ofList (ss : List String) (l : List Char) :
+    GoLite.contains ss (String.ofList l) = (ss.map String.toList).contains l := by
+  unfold GoLite.contains
+  induction ss with
+  | nil => rfl
+  | cons a r ih =>
+    simp only [List.contains_cons, List.map_cons, ih]
+    have h1 := beq_ofList a l
+    have : (String.ofList l == a) = (l == a.toList) := by
+      rw [Bool.eq_iff_iff] at h1 ⊢
+      simp only [beq_iff_eq] at h1 ⊢
+      constructor
+      · intro e; exact (h1.1 e.symm).symm
+      · intro e; exact (h1.2 e.symm).symm
+    rw [this]
+
+theorem cut_list (sep : Char) : ∀ l : List Char,
+    cut sep l = if l.contains sep then some (l.takeWhile (· != sep), (l.dropWhile (· != sep)).drop 1) else none := by
+  intro l
+  induction l with
+  | nil => rfl
+  | cons c cs ih =>
+    simp only [cut, ih]
+    by_cases hc : c = sep
+    · subst hc; simp
+    · have h1 : (c == sep) = false := by simpa using hc
+      have hc' : ¬ sep = c := fun e => hc e.symm
+      by_cases hm : sep ∈ cs
+      · simp [h1, hc, hc', hm, List.takeWhile_cons, List.dropWhile_cons]
+      · simp [h1, hc, hc', hm, List.takeWhile_cons, List.dropWhile_cons]
+
+/-- `strings.Cut` of the translation and `cut` of the model -/
+theorem cut_src (s : String) (sep : Char) :
+    GoLite.cut s sep = (match cut sep s.toList with
+      | some (a, b) => (String.ofList a, String.ofList b, true)
+      | none => (s, "", false)) := by
+  unfold GoLite.cut
+  rw [cut_list]
+  by_cases hm : sep ∈ s.toList <;> simp [hm]
+
+/-! #### the leaf predicates -/
+
+theorem specMatch_fileName (r t : List Char) (h : r = fileNameRx.anchored) :
+    regexp.specMatch r t = fileNameRx.matches t := by
+  subst h
+  unfold regexp.specMatch
+  rw [if_neg (by decide), if_neg (by decide), if_pos rfl]
+
+theorem specMatch_domain (r t : List Char) (h : r = domainRx.anchored) :
+    regexp.specMatch r t = domainRx.matches t := by
+  subst h
+  unfold regexp.specMatch
+  rw [if_pos rfl]
+
+theorem specMatch_repository (r t : List Char) (h : r = repositoryRx.anchored) :
+    regexp.specMatch r t = repositoryRx.matches t := by
+  subst h
+  unfold regexp.specMatch
+  rw [if_neg (by decide), if_pos rfl]
+
+/-- TIE: `file.IsValidFileName` (internal/file/file.go), with Go's regexp as the oracle of
+`Src/TypesC09.lean`, is the model's `isValidFileName` -/
+theorem source_IsValidFileName_refines_model (s : String) :
+    file.IsValidFileName s = isValidFileName s.toList := by
+  unfold file.IsValidFileName isValidFileName
+  simp only [Id.run, regexp.MustCompile, regexp.Regexp.MatchString]
+  rw [specMatch_fileName _ _ (by decide)]
+  by_cases h1 : s = "."
+  · subst h1; simp [Spec.fileNameRefused, GoLite.idPure]
+  · by_cases h2 : s = ".."
+    · subst h2; simp [Spec.fileNameRefused, GoLite.idPure]
+    · have l1 : s.toList ≠ ['.'] := fun e => h1 (String.toList_inj.1 (by rw [e]; decide))
+      have l2 : s.toList ≠ ['.', '.'] := fun e => h2 (String.toList_inj.1 (by rw [e]; decide))
+      have l1' : ['.'] ≠ s.toList := fun e => l1 e.symm
+      have l2' : ['.', '.'] ≠ s.toList := fun e => l2 e.symm
+      simp [h1, h2, Ne.symm h1, Ne.symm h2, l1, l2, l1', l2', Spec.fileNameRefused, GoLite.idPure,
+        show ((fun a : String => a) s = s) from rfl]
+
+/-- TIE: `isValidTrustStoreType` -/
+theorem source_isValidTrustStoreType_refines_model (s : String) :
+    isValidTrustStoreType s = Facts.trustStoreTypes.contains s.toList := by
+  unfold isValidTrustStoreType
+  simp only [Id.run]
+  rw [forIn_findReturn (fun p => if s == p then some true else none) _ (by
+    intro a st; simp only [id]; split <;> simp_all)]
+  simp only [pure_bind, findSome?_if_some, GoLite.idPure]
+  have : ((Facts.trustStoreTypes.map String.ofList).any fun p => s == p) = Facts.trustStoreTypes.contains s.toList := by
+    generalize Facts.trustStoreTypes = L
+    induction L with
+    | nil => rfl
+    | cons a r ih =>
+      simp only [List.map_cons, List.any_cons, List.contains_cons, ih, beq_ofList]
+  rw [this]
+  cases Facts.trustStoreTypes.contains s.toList <;> rfl
+
+/-- what the model asks of one trust store value, said with the translated helpers -/
+theorem storeOk_src (t : String) :
+    storeOk t.toList = ((GoLite.cut t ':').2.2 && isValidTrustStoreType (GoLite.cut t ':').1 &&
+      file.IsValidFileName (GoLite.cut t ':').2.1) := by
+  rw [cut_src]
+  unfold storeOk
+  cases h : cut ':' t.toList with
+  | none => simp
+  | some p =>
+    obtain ⟨a, b⟩ := p
+    simp [source_isValidTrustStoreType_refines_model, source_IsValidFileName_refines_model, String.toList_ofList]
+
+theorem isOk_validateTrustStore (ts : List Text) : isOk (C09.validateTrustStore ts) = ts.all storeOk := by
+  have := validateTrustStore_ok ts
+  cases h : C09.validateTrustStore ts with
+  | ok u => 
+    have h2 := this.1 (by rw [h])
+    simp only [isOk]
+    symm; rw [List.all_eq_true]; exact h2
+  | error e =>
+    simp only [isOk]
+    cases ha : ts.all storeOk with
+    | false => rfl
+    | true =>
+      rw [List.all_eq_true] at ha
+      have := this.2 ha
+      rw [h] at this; cases this
+
+/-- TIE: `validateTrustStore` (verifier/trustpolicy/trustpolicy.go) returns an error exactly when
+the model's `validateTrustStore` does, for every list of trust store values -/
+theorem source_validateTrustStore_refines_model (name : String) (ts : List String) :
+    trustpolicy.validateTrustStore name ts =
+      if isOk (C09.validateTrustStore (ts.map String.toList)) then none else some (GoLite.errorf "") := by
+  unfold trustpolicy.validateTrustStore
+  simp only [Id.run]
+  rw [forIn_findReturn (fun t => if storeOk t.toList then none else some (some (GoLite.errorf ""))) _ (by
+    intro a st
+    rw [storeOk_src]
+    have hc : (Char.ofNat 58) = ':' := rfl
+    simp only [hc]
+    cases (GoLite.cut a ':').2.2 <;> cases isValidTrustStoreType (GoLite.cut a ':').1 <;>
+      cases file.IsValidFileName (GoLite.cut a ':').2.1 <;> simp [GoLite.errorf])]
+  simp only [pure_bind, findSome?_if_none, isOk_validateTrustStore, List.all_map, GoLite.idPure]
+  have : (ts.all (storeOk ∘ String.toList)) = ts.all (fun t => storeOk t.toList) := rfl
+  rw [this]
+  cases ts.all (fun t => storeOk t.toList) <;> rfl
+
+example : trustpolicy.validateTrustStore "p" ["ca:acme-rockets", "tsa:.."] = some ⟨"error"⟩ := by decide
+example : trustpolicy.validateTrustStore "p" ["ca:acme-rockets", "signingAuthority:a.b"] = none := by decide
+
+/-! #### registry scopes -/
+
+theorem hasInfix_singleton (c : Char) : ∀ l : List Char, hasInfix [c] l = l.contains c := by
+  intro l
+  induction l with
+  | nil => rfl
+  | cons a r ih =>
+    simp only [hasInfix, ih, List.contains_cons]
+    have : [c].isPrefixOf (a :: r) = (c == a) := by simp [List.isPrefixOf]
+    rw [this]
+
+/-- TIE: `validateRegistryScopeFormat` (verifier/trustpolicy/oci.go), with Go's regexp as the
+oracle of `Src/TypesC09.lean`, refuses exactly the scopes the model's `validScopeFormat` refuses -/
+theorem source_validateRegistryScopeFormat_refines_model (scope : String) :
+    validateRegistryScopeFormat scope =
+      if validScopeFormat scope.toList then none else some (GoLite.errorf "") := by
+  unfold validateRegistryScopeFormat validScopeFormat
+  simp only [Id.run, regexp.MustCompile, regexp.Regexp.MatchString]
+  simp (disch := decide) only [specMatch_domain, specMatch_repository]
+  have hstar : strings.Contains scope "*" = scope.toList.contains '*' := by
+    unfold strings.Contains
+    rw [show "*".toList = ['*'] by decide, hasInfix_singleton]
+  have hlen : decide (strings.Len scope > (1 : Int)) = decide (scope.toList.length > 1) := by
+    unfold strings.Len
+    by_cases h : scope.toList.length > 1
+    · have : ((scope.toList.length : Nat) : Int) > 1 := by omega
+      simp [h, this]
+    · have : ¬ ((scope.toList.length : Nat) : Int) > 1 := by omega
+      simp [h, this]
+  have hc : (Char.ofNat 47) = '/' := rfl
+  rw [hstar, hlen, hc, cut_src]
+  cases h1 : (decide (scope.toList.length > 1) && scope.toList.contains '*') with
+  | true => simp [GoLite.errorf, GoLite.idPure]
+  | false =>
+    simp only [Bool.false_eq_true, if_false]
+    cases hcut : cut '/' scope.toList with
+    | none => simp [GoLite.errorf, GoLite.idPure]
+    | some p =>
+      obtain ⟨d, r⟩ := p
+      simp only [Bool.not_true, Bool.false_eq_true, if_false, beq_empty, String.toList_ofList]
+      by_cases a1 : d.isEmpty = true <;> by_cases a2 : r.isEmpty = true <;>
+        by_cases a3 : domainRx.matches d = true <;> by_cases a4 : repositoryRx.matches r = true <;>
+        simp [a1, a2, a3, a4, GoLite.errorf, GoLite.idPure] <;> (try rfl)
+
+example : validateRegistryScopeFormat "registry.acme-rockets.io:5000/software/net-monitor" = none := by decide
+example : validateRegistryScopeFormat "registry.acme-rockets.io/Software" = some ⟨"error"⟩ := by decide
+
+/-! #### pkix.IsSubsetDN -/
+
+theorem get?_eq_lookup (m : DNMap) (k : String) : GoLite.Map.get? m k = m.lookup k := by
+  unfold GoLite.Map.get?
+  induction m with
+  | nil => rfl
+  | cons a r ih =>
+    obtain ⟨k', v'⟩ := a
+    simp only [List.find?_cons, List.lookup_cons]
+    by_cases h : k' = k
+    · subst h; simp
+    · have h1 : (k' == k) = false := beq_false_of_ne h
+      have h2 : (k == k') = false := beq_false_of_ne (fun e => h e.symm)
+      simp only [h1, h2, ih]
+
+/-- TIE: `pkix.IsSubsetDN` (internal/pkix/pkix.go) is the model's `isSubsetDN`, for all maps (as
+association lists, i.e. for every iteration order) -/
+theorem source_IsSubsetDN_refines_model (dn1 dn2 : DNMap) : pkix.IsSubsetDN dn1 dn2 = isSubsetDN dn1 dn2 := by
+  unfold pkix.IsSubsetDN isSubsetDN
+  simp only [Id.run]
+  rw [forIn_findReturn (fun kv : String × String => if dn2.lookup kv.1 == some kv.2 then none else some false) _ (by
+    intro a st
+    obtain ⟨k, v⟩ := a
+    simp only [GoLite.Map.lookup, get?_eq_lookup]
+    cases h : List.lookup k dn2 with
+    | none => simp
+    | some w =>
+      by_cases hw : w = v
+      · subst hw; simp
+      · have hw' : ¬ v = w := fun e => hw e.symm
+        simp [hw, hw'])]
+  simp only [pure_bind, findSome?_if_none, GoLite.idPure]
+  cases dn1.all (fun kv => dn2.lookup kv.1 == some kv.2) <;> rfl
+
+example : pkix.IsSubsetDN [("C", "US"), ("O", "x")] [("O", "x"), ("C", "US"), ("CN", "")] = true := by decide
+example : pkix.IsSubsetDN [("C", "US"), ("CN", "")] [("C", "US")] = false := by decide
+
+/-! #### validatePolicyCore -/
+
+/-- the model's statement for the arguments of the translated `validatePolicyCore` -/
+def mkStatement (name : String) (sv : SignatureVerificationFull) (ts : List String) (ids : List Identity) : Statement :=
+  { name := name, level := sv.VerificationLevel, override := sv.Override.map toKV,
+    verifyTimestamp := sv.VerifyTimestamp, trustStores := ts.map String.toList, identities := ids,
+    scopes := [], isGlobal := false }
+
+theorem len_pos {α : Type} (l : List α) : decide (GoLite.len l > 0) = decide (l.length > 0) := by
+  unfold GoLite.len
+  by_cases h : l.length > 0
+  · have : ((l.length : Nat) : Int) > 0 := by omega
+    simp [h, this]
+  · have : ¬ ((l.length : Nat) : Int) > 0 := by omega
+    simp [h, this]
+
+theorem len_zero {α : Type} (l : List α) : (GoLite.len l == 0) = (l.length == 0) := by
+  cases l with
+  | nil => rfl
+  | cons a r =>
+    have h1 : (GoLite.len (a :: r) == 0) = false := by simp [GoLite.len]; omega
+    have h2 : ((a :: r).length == 0) = false := by simp
+    rw [h1, h2]
+
+/-- TIE: `validatePolicyCore` (verifier/trustpolicy/trustpolicy.go) refuses a statement exactly
+when the model's `validatePolicyCore` does - for every name, level, override map, timestamp
+option and trust store list; the identity list enters through the verdict of the translated
+`validateTrustedIdentities` (hypothesis `hid`: it agrees with the model's on these identities). -/
+theorem source_validatePolicyCore_refines_model
+    (pd : String → GoLite.Map String String × Option GoLite.Err) (name : String)
+    (sv : SignatureVerificationFull) (ts tis : List String) (ids : List Identity)
+    (hlen : ids.length = tis.length)
+    (hid : (trustpolicy.validateTrustedIdentities pd name tis).isSome = !isOk (C09.validateTrustedIdentities ids)) :
+    (trustpolicy.validatePolicyCore pd name sv ts tis).isSome =
+      !isOk (C09.validatePolicyCore (mkStatement name sv ts ids)) := by
+  unfold trustpolicy.validatePolicyCore C09.validatePolicyCore
+  simp only [Id.run, mkStatement]
+  have htie := source_GetVerificationLevel_refines_model sv.toSignatureVerification
+  rw [source_validateTrustStore_refines_model]
+  simp only [len_pos, len_zero, List.length_map, ← hlen, OptionAlways, OptionAfterCertExpiry]
+  generalize GetVerificationLevel sv.toSignatureVerification = g at htie ⊢
+  obtain ⟨gl, ge⟩ := g
+  cases heff : effective sv.VerificationLevel (sv.Override.map toKV) with
+  | error e =>
+    rw [heff] at htie
+    simp only [shape, ofModel, Prod.mk.injEq] at htie
+    simp only [htie.2]
+    by_cases hn : name = "" <;>
+    by_cases t0 : sv.VerifyTimestamp = "" <;>
+    by_cases t1 : sv.VerifyTimestamp = Facts.optionAlways <;>
+    by_cases t2 : sv.VerifyTimestamp = Facts.optionAfterCertExpiry <;>
+    simp [hn, t0, t1, t2, isOk, GoLite.idPure]
+  | ok lv =>
+    rw [heff] at htie
+    simp only [shape, ofModel, Prod.mk.injEq] at htie
+    obtain ⟨h1, h2⟩ := htie
+    have hname : (GoLite.deref gl).Name = lv.1 := by
+      cases gl with
+      | none => simp at h1
+      | some l => simp only [Option.map_some, Option.some.injEq] at h1; rw [← h1]; rfl
+    simp only [h2, hname, Bool.false_eq_true, if_false, Facts.policyCoreSkipLiteral]
+    cases hv : C09.validateTrustStore (ts.map String.toList) <;>
+    cases hi : C09.validateTrustedIdentities ids <;>
+    (try simp only [hi, isOk, Bool.not_true, Bool.not_false] at hid) <;>
+    by_cases hn : name = "" <;>
+    by_cases t0 : sv.VerifyTimestamp = "" <;>
+    by_cases t1 : sv.VerifyTimestamp = Facts.optionAlways <;>
+    by_cases t2 : sv.VerifyTimestamp = Facts.optionAfterCertExpiry <;>
+    by_cases hs : lv.1 = "skip" <;>
+    by_cases ha : ts.length = 0 <;>
+    by_cases hb : ids.length = 0 <;>
+    simp [hn, t0, t1, t2, hs, ha, hb, hid, isOk, GoLite.idPure, GoLite.errorf, Nat.pos_iff_ne_zero]
+
+example : (trustpolicy.validatePolicyCore (fun _ => ([], none)) "p"
+    { VerificationLevel := "audit", Override := [("expiry", "skip")], VerifyTimestamp := "" } ["ca:x"] ["*"]).isSome = true := by decide
+example : (trustpolicy.validatePolicyCore (fun _ => ([], none)) "p"
+    { VerificationLevel := "audit", Override := [("revocation", "skip")], VerifyTimestamp := "always" } ["ca:x"] ["*"]) = none := by decide
+
+/-! #### the statement loops of BlobDocument.Validate and OCIDocument.Validate -/
+
+/-- two lists related element by element -/
+inductive All2 {α β : Type} (R : α → β → Prop) : List α → List β → Prop
+  | nil : All2 R [] []
+  | cons {a : α} {b : β} {as : List α} {bs : List β} : R a b → All2 R as bs → All2 R (a :: as) (b :: bs)
+
+theorem All2.length_eq {α β : Type} {R : α → β → Prop} {as : List α} {bs : List β} (h : All2 R as bs) :
+    as.length = bs.length := by
+  induction h with
+  | nil => rfl
+  | cons _ _ ih => simp [ih]
+
+theorem contains_versions (vs : List String) (v : String) : GoLite.contains vs v = vs.contains v := rfl
+
+/-- one iteration of the blob statement loop, on the model's loop state (names seen, global found) -/
+def blobStep (pd : String → GoLite.Map String String × Option GoLite.Err) (t : List String × Bool)
+    (p : BlobTrustPolicy) : Except Unit (List String × Bool) :=
+  if t.1.contains p.Name then .error ()
+  else if (trustpolicy.validatePolicyCore pd p.Name p.SignatureVerification p.TrustStores p.TrustedIdentities).isSome then .error ()
+  else if p.GlobalPolicy then
+    if t.2 then .error ()
+    else if p.SignatureVerification.VerificationLevel == Facts.levelSkipName then .error ()
+    else .ok (p.Name :: t.1, true)
+  else .ok (p.Name :: t.1, t.2)
+
+/-- a Go statement and the model's statement describe the same thing, and the translated
+`validatePolicyCore` gives the model's verdict on it (see `source_validatePolicyCore_refines_model`) -/
+def BlobRel (pd : String → GoLite.Map String String × Option GoLite.Err) (p : BlobTrustPolicy) (s : Statement) : Prop :=
+  s.name = p.Name ∧ s.level = p.SignatureVerification.VerificationLevel ∧ s.isGlobal = p.GlobalPolicy ∧
+  (trustpolicy.validatePolicyCore pd p.Name p.SignatureVerification p.TrustStores p.TrustedIdentities).isSome =
+    !isOk (C09.validatePolicyCore s)
+
+def okE {ε α : Type} : Except ε α → Bool
+  | .ok _ => true
+  | .error _ => false
+
+theorem foldE_blob (pd : String → GoLite.Map String String × Option GoLite.Err) :
+    ∀ (ps : List BlobTrustPolicy) (ss : List Statement), All2 (BlobRel pd) ps ss →
+      ∀ seen found, okE (GoLite.foldE (blobStep pd) ps (seen, found)) = isOk (validateStatementsBlob ss seen found) := by
+  intro ps ss h
+  induction h with
+  | nil => intro seen found; rfl
+  | @cons p s ps ss hr _ ih =>
+    intro seen found
+    obtain ⟨h1, h2, h3, h4⟩ := hr
+    simp only [GoLite.foldE, blobStep, validateStatementsBlob, h1, h2, h3]
+    cases hc : seen.contains p.Name with
+    | true => simp [okE, isOk]
+    | false =>
+      simp only [Bool.false_eq_true, if_false, h4]
+      cases hv : C09.validatePolicyCore s with
+      | error e => simp [okE, isOk]
+      | ok u =>
+        simp only [isOk, Bool.not_true, Bool.false_eq_true, if_false]
+        cases hg : p.GlobalPolicy with
+        | false => simp only [Bool.false_eq_true, if_false]; exact ih _ _
+        | true =>
+          simp only [if_true]
+          cases found with
+          | true => simp [okE, isOk]
+          | false =>
+            simp only [Bool.false_eq_true, if_false]
+            cases hk : (p.SignatureVerification.VerificationLevel == Facts.levelSkipName) with
+            | true => simp [okE, isOk]
+            | false => simp only [Bool.false_eq_true, if_false]; exact ih _ _
+
+/-- TIE: `BlobDocument.Validate` (verifier/trustpolicy/blob.go): version, at least one statement,
+and the statement loop with its name set and global flag refuse exactly the documents the model's
+`validateBlob` refuses; the statements enter through the verdicts of the translated
+`validatePolicyCore` (relation `BlobRel`). A nil document is refused. -/
+theorem source_BlobDocument_Validate_refines_model
+    (pd : String → GoLite.Map String String × Option GoLite.Err) (d : BlobDocument) (ss : List Statement)
+    (hrel : All2 (BlobRel pd) d.TrustPolicies ss) :
+    (BlobDocument.Validate pd (some d)).isSome = !isOk (validateBlob { version := d.Version, statements := ss }) ∧
+    (BlobDocument.Validate pd none).isSome = true := by
+  constructor
+  · unfold BlobDocument.Validate validateBlob
+    simp only [Id.run, Option.isNone_some, GoLite.deref, Option.getD_some, Bool.false_eq_true, if_false,
+      contains_versions, len_zero]
+    have hl : ss.length = d.TrustPolicies.length := hrel.length_eq.symm
+    have hv : supportedBlobPolicyVersions = Facts.supportedBlobPolicyVersions := by decide
+    rw [hv, hl]
+    by_cases h0 : d.Version = ""
+    · simp [h0, isOk, GoLite.idPure]
+    · have h1 : (d.Version == "") = false := beq_false_of_ne h0
+      have h1' : ("" == d.Version) = false := beq_false_of_ne (fun e => h0 e.symm)
+      simp only [h1, h1', Bool.false_eq_true, if_false]
+      cases h2 : (!Facts.supportedBlobPolicyVersions.contains d.Version) with
+      | true => simp [isOk, GoLite.idPure]
+      | false =>
+        simp only [Bool.false_eq_true, if_false]
+        cases h3 : (d.TrustPolicies.length == 0) with
+        | true => simp [isOk, GoLite.idPure]
+        | false =>
+          simp only [Bool.false_eq_true, if_false]
+          rw [GoLite.forIn_eq_foldE' _ (blobStep pd)
+            (fun t => (none, (⟨t.1⟩ : set.Set), t.2))
+            (fun t _ => (some (some (GoLite.errorf "")), (⟨t.1⟩ : set.Set), t.2)) ?h _ _ ([], false) ?hs]
+          case hs => rfl
+          case h =>
+            intro a t
+            obtain ⟨seen, found⟩ := t
+            have hk : LevelSkip.Name = Facts.levelSkipName := by decide
+            simp only [blobStep, set.Set.Contains, set.Set.Add, hk]
+            (repeat' split) <;> simp_all [GoLite.errorf] <;> (try (subst_vars; rfl))
+          have := foldE_blob pd _ _ hrel [] false
+          rw [← this]
+          cases GoLite.foldE (blobStep pd) d.TrustPolicies ([], false) with
+          | ok t => simp only [okE, Bool.not_true]; rfl
+          | error p => obtain ⟨t, e⟩ := p; simp only [okE, Bool.not_false]; rfl
+  · unfold BlobDocument.Validate
+    simp [Id.run, GoLite.idPure]
+
+def ociStep (pd : String → GoLite.Map String String × Option GoLite.Err) (seen : List String)
+    (p : OCITrustPolicy) : Except Unit (List String) :=
+  if seen.contains p.Name then .error ()
+  else if (trustpolicy.validatePolicyCore pd p.Name p.SignatureVerification p.TrustStores p.TrustedIdentities).isSome then .error ()
+  else .ok (p.Name :: seen)
+
+def OCIRel (pd : String → GoLite.Map String String × Option GoLite.Err) (p : OCITrustPolicy) (s : Statement) : Prop :=
+  s.name = p.Name ∧
+  (trustpolicy.validatePolicyCore pd p.Name p.SignatureVerification p.TrustStores p.TrustedIdentities).isSome =
+    !isOk (C09.validatePolicyCore s)
+
+theorem foldE_oci (pd : String → GoLite.Map String String × Option GoLite.Err) :
+    ∀ (ps : List OCITrustPolicy) (ss : List Statement), All2 (OCIRel pd) ps ss →
+      ∀ seen, okE (GoLite.foldE (ociStep pd) ps seen) = isOk (validateStatementsOCI ss seen) := by
+  intro ps ss h
+  induction h with
+  | nil => intro seen; rfl
+  | @cons p s ps ss hr _ ih =>
+    intro seen
+    obtain ⟨h1, h4⟩ := hr
+    simp only [GoLite.foldE, ociStep, validateStatementsOCI, h1]
+    cases hc : seen.contains p.Name with
+    | true => simp [okE, isOk]
+    | false =>
+      simp only [Bool.false_eq_true, if_false, h4]
+      cases hv : C09.validatePolicyCore s with
+      | error e => simp [okE, isOk]
+      | ok u => simp only [isOk, Bool.not_true, Bool.false_eq_true, if_false]; exact ih _
+
+/-- TIE: `OCIDocument.Validate` (verifier/trustpolicy/oci.go): version, at least one statement, the
+statement loop with its name set, then the registry scopes - refuses exactly the documents the
+model's `validateOCI` refuses; statements enter through the verdicts of the translated
+`validatePolicyCore` (relation `OCIRel`), scopes through the verdict of the translated
+`validateRegistryScopes` (hypothesis `hsc`). A nil document is refused. -/
+theorem source_OCIDocument_Validate_refines_model
+    (pd : String → GoLite.Map String String × Option GoLite.Err) (d : OCIDocument) (ss : List Statement)
+    (hrel : All2 (OCIRel pd) d.TrustPolicies ss)
+    (hsc : (trustpolicy.validateRegistryScopes (some d)).isSome = !isOk (C09.validateRegistryScopes ss)) :
+    (OCIDocument.Validate pd (some d)).isSome = !isOk (validateOCI { version := d.Version, statements := ss }) ∧
+    (OCIDocument.Validate pd none).isSome = true := by
+  constructor
+  · unfold OCIDocument.Validate validateOCI
+    simp only [Id.run, Option.isNone_some, GoLite.deref, Option.getD_some, Bool.false_eq_true, if_false,
+      contains_versions, len_zero]
+    have hl : ss.length = d.TrustPolicies.length := hrel.length_eq.symm
+    have hv : supportedOCIPolicyVersions = Facts.supportedOCIPolicyVersions := by decide
+    rw [hv, hl]
+    by_cases h0 : d.Version = ""
+    · simp [h0, isOk, GoLite.idPure]
+    · have h1 : (d.Version == "") = false := beq_false_of_ne h0
+      have h1' : ("" == d.Version) = false := beq_false_of_ne (fun e => h0 e.symm)
+      simp only [h1, h1', Bool.false_eq_true, if_false]
+      cases h2 : (!Facts.supportedOCIPolicyVersions.contains d.Version) with
+      | true => simp [isOk, GoLite.idPure]
+      | false =>
+        simp only [Bool.false_eq_true, if_false]
+        cases h3 : (d.TrustPolicies.length == 0) with
+        | true => simp [isOk, GoLite.idPure]
+        | false =>
+          simp only [Bool.false_eq_true, if_false]
+          rw [GoLite.forIn_eq_foldE' _ (ociStep pd)
+            (fun t => (none, (⟨t⟩ : set.Set)))
+            (fun t _ => (some (some (GoLite.errorf "")), (⟨t⟩ : set.Set))) ?h _ _ [] ?hs]
+          case hs => rfl
+          case h =>
+            intro a seen
+            simp only [ociStep, set.Set.Contains, set.Set.Add]
+            by_cases hc : a.Name ∈ seen
+            · simp [hc, GoLite.errorf]
+            · by_cases hvv : (trustpolicy.validatePolicyCore pd a.Name a.SignatureVerification a.TrustStores a.TrustedIdentities).isSome = true
+              · simp [hc, hvv, GoLite.errorf]
+              · simp [hc, hvv]
+          have hfold := foldE_oci pd _ _ hrel []
+          cases hf : GoLite.foldE (ociStep pd) d.TrustPolicies [] with
+          | ok t =>
+            rw [hf] at hfold
+            simp only [okE] at hfold
+            cases hm : validateStatementsOCI ss [] with
+            | error e => rw [hm] at hfold; cases hfold
+            | ok u =>
+              simp only []
+              cases hr : C09.validateRegistryScopes ss with
+              | ok u =>
+                simp only [hr, isOk, Bool.not_true] at hsc
+                have : trustpolicy.validateRegistryScopes (some d) = none := by
+                  cases h : trustpolicy.validateRegistryScopes (some d) with
+                  | none => rfl
+                  | some e => rw [h] at hsc; cases hsc
+                simp only [isOk, Bool.not_true]
+                simp only [this]; rfl
+              | error e =>
+                simp only [hr, isOk, Bool.not_false] at hsc
+                simp only [isOk, Bool.not_false]
+                simp only [hsc, if_true]; exact hsc
+          | error p =>
+            obtain ⟨t, e⟩ := p
+            rw [hf] at hfold
+            simp only [okE] at hfold
+            cases hm : validateStatementsOCI ss [] with
+            | ok u => rw [hm] at hfold; cases hfold
+            | error e => simp only [isOk, Bool.not_false]; rfl
+  · unfold OCIDocument.Validate
+    simp [Id.run, GoLite.idPure]
+
+end Tie
 
 end NotationModel.C09
